@@ -252,12 +252,46 @@ func init() {
 			if rng.IntN(8) == 0 {
 				c1, c3 = 0, 0
 			}
+			base := int64(1700000000)
+			if i%16 == 2 || i%16 == 3 {
+				// a one-way term within the correction of the int64 limits (the raw difference of the two
+				// timestamps, term plus correction, is outside int64 although offset, delay, both terms and
+				// the corrections fit), corrections of either sign over the 48 bits a correction field has
+				base = int64(1) << 40
+				cl := int64(1) << uint(1+rng.IntN(47))
+				c1, c3 = rng.Int64N(2*cl)-cl, rng.Int64N(2*cl)-cl
+				near := math.MaxInt64 - rng.Int64N(cl)
+				switch rng.IntN(4) {
+				case 0: // offset + delay near the upper limit
+					d = rng.Int64N(near)
+					theta = near - d
+				case 1: // delay - offset near the upper limit
+					d = rng.Int64N(near)
+					theta = d - near
+				case 2: // delay alone
+					d, theta = near, rng.Int64N(3)-1
+					if theta > 0 && d == math.MaxInt64 {
+						theta = 0
+					}
+				default: // offset alone, delay small
+					d = rng.Int64N(1 << 20)
+					theta = []int64{1, -1}[rng.IntN(2)] * (near - d)
+				}
+			}
+			if i%16 == 4 {
+				// offset and delay fit int64 each, a one-way term does not
+				base = int64(1) << 40
+				d = (int64(1) << 62) + rng.Int64N(int64(1)<<62)
+				theta = []int64{1, -1}[rng.IntN(2)] * ((int64(1) << 62) + rng.Int64N(int64(1)<<62))
+				cl := int64(1) << uint(1+rng.IntN(47))
+				c1, c3 = rng.Int64N(2*cl)-cl, rng.Int64N(2*cl)-cl
+			}
 			proc := rng.Int64N(1e9)
 			// client clock C, server clock S = C + theta
-			t0 := time.Unix(1700000000, rng.Int64N(1e9)).UTC()
-			t1 := t0.Add(time.Duration(theta + d + c1)) // server rx reading, residence correction c1
+			t0 := time.Unix(base, rng.Int64N(1e9)).UTC()
+			t1 := t0.Add(time.Duration(theta)).Add(time.Duration(d)).Add(time.Duration(c1)) // server rx reading, residence correction c1
 			t2 := t1.Add(time.Duration(proc))
-			t3 := t2.Add(time.Duration(-theta + d + c3))
+			t3 := t2.Add(time.Duration(-theta)).Add(time.Duration(d)).Add(time.Duration(c3))
 			off := csptp.ClockOffset(t0, t1, t2, t3, time.Duration(c1), time.Duration(c3))
 			mpd := csptp.MeanPathDelay(t0, t1, t2, t3, time.Duration(c1), time.Duration(c3))
 			if int64(off) != theta || int64(mpd) != d {
@@ -278,7 +312,7 @@ func init() {
 		r.Class("csptp-offset-delay")
 		r.Eval(evals)
 		r.DistinctN(evals)
-		r.Assume("offset/delay inputs bounded so that no intermediate exceeds 2^62 ns")
+		r.Assume("offset and delay each fit int64 nanoseconds, corrections are within the 48 bits of a correction field, all four timestamps are valid 48-bit CSPTP timestamps")
 		r.Assume("scaled-ppm range = the kernel's |freq| <= 500 ppm << 16")
 		r.Finish("TimevalFromNsec on int64 boundaries, every multiple of 1e9 +-2 on a grid over the whole int64 range and random values (math/big oracle); scaled-ppm round trip on a stride (quick) or all "+
 			"65 536 001 values (thorough); Drift(d), Drift(k*d) against exact rationals (relative 2^-48 + 1 ns); CSPTP timestamps on boundaries of every byte of the 48-bit seconds field, random in range and out of range "+
